@@ -59,7 +59,7 @@ func runC08(c *Ctx, r *Report, tier string) {
 	}
 	activeF := c.mustField(r, "Command", "Active")
 	for _, s := range c.storesTo(activeF) {
-		ok := s.Fn == pno
+		ok := c.actsFor(s.Fn, pno)
 		if ok {
 			fa := s.Store.Addr.(*ssa.FieldAddr)
 			ok = c.term(fa.X) == "parseState.command(P1)" && c.term(s.Store.Val) == lk
@@ -67,7 +67,7 @@ func runC08(c *Ctx, r *Report, tier string) {
 			ok = ok && hit
 		}
 		r.Check(ok, "RESOLVE", c.fname(s.Fn), "store Command.Active", c.ipos(s.Store), "s.command.Active = the looked-up command, on the hit edge, in parseNonOption only", "Command.Active stored in "+c.fname(s.Fn)+" as "+trunc(c.term(s.Store.Val), 80))
-		if s.Fn == pno {
+		if c.actsFor(s.Fn, pno) {
 			// fillParseState(hit) follows before the return
 			okF := false
 			for _, in := range c.instrs(pno, c.isCallTo("(*Command).fillParseState")) {
@@ -199,7 +199,7 @@ func runC08(c *Ctx, r *Report, tier string) {
 	}
 	sitesFL, _ := c.callersOf(fl)
 	for _, s := range sitesFL {
-		r.Check(s.Fn == ml || af.helper != nil && s.Fn == af.helper, "SCOPE", c.fname(s.Fn), "caller of fillLookup", c.ipos(s.Call), "only makeLookup fills a table (always a fresh one)", "fillLookup called from "+c.fname(s.Fn)+": a table is extended in place, stale entries of outer commands survive")
+		r.Check(c.actsFor(s.Fn, ml) || af.helper != nil && s.Fn == af.helper, "SCOPE", c.fname(s.Fn), "caller of fillLookup", c.ipos(s.Call), "only makeLookup fills a table (always a fresh one)", "fillLookup called from "+c.fname(s.Fn)+": a table is extended in place, stale entries of outer commands survive")
 	}
 	r.Check(len(got) == 3, "SCOPE", fpn, "state fields switched", c.pos(fps.Pos()), "lookup, command and positional are all replaced", fmt.Sprintf("only %d of 3 stored", len(got)))
 
@@ -349,7 +349,7 @@ func (c *Ctx) ancestorFill(ml *ssa.Function) *ancFill {
 				sites, asVal := c.callersOf(h)
 				okWho := len(asVal) == 0
 				for _, s := range sites {
-					if s.Fn != ml && s.Fn != h {
+					if !c.actsFor(s.Fn, ml) && !c.actsFor(s.Fn, h) {
 						okWho = false
 					}
 				}
